@@ -29,6 +29,37 @@ fn main() {
         }
         return;
     }
+    if args.len() >= 4 && args[1] == "--random" {
+        // replay --random <harness> <trials> [seed]: sample the harness natively, count witness hits
+        let name = args[2].clone();
+        let trials: u64 = args[3].parse().unwrap();
+        let seed: u64 = args.get(4).map(|s| s.parse().unwrap()).unwrap_or(1);
+        let f = vharness::registry::lookup(&name).expect("unknown harness");
+        std::panic::set_hook(Box::new(|_| {}));
+        let mut valid = 0u64;
+        let mut counts: std::collections::BTreeMap<&'static str, u64> = Default::default();
+        let mut failed: std::collections::BTreeMap<&'static str, u64> = Default::default();
+        for t in 0..trials {
+            native::load_random(seed.wrapping_mul(0x9E3779B97F4A7C15).wrapping_add(t.wrapping_mul(0xD1B54A32D192ED03)));
+            vharness::models::rng_reset();
+            let r = std::panic::catch_unwind(f);
+            let st = native::take();
+            let stopped = matches!(&r, Err(e) if e.downcast_ref::<native::AssumeStop>().is_some());
+            if stopped {
+                continue;
+            }
+            valid += 1;
+            for c in st.covers_hit {
+                *counts.entry(c).or_insert(0) += 1;
+            }
+            for c in st.failed {
+                *failed.entry(c).or_insert(0) += 1;
+            }
+        }
+        let fmt = |m: &std::collections::BTreeMap<&'static str, u64>| m.iter().map(|(k, v)| format!("\"{}\":{}", k, v)).collect::<Vec<_>>().join(",");
+        println!("{{\"harness\":\"{}\",\"trials\":{},\"valid_trials\":{},\"covers\":{{{}}},\"failed\":{{{}}}}}", name, trials, valid, fmt(&counts), fmt(&failed));
+        return;
+    }
     let mut txt = String::new();
     std::fs::File::open(&args[1])
         .expect("open replay file")
